@@ -82,6 +82,67 @@ def check_grow(chk):
         chk.expect(not n, 'R18.3', 'unshared-no-lock[%s]' % p.cond_text()[:50], 'non-shared grow touches the (uninitialised) mutex', site)
 
 
+def check_all_descriptor_readers(chk):
+    """R18.1 over the whole runtime header: every function (other than the allocator and the destructor, which run before publication
+    and after the last use) that reads or writes memory->pages / memory->size is partially evaluated with a shared memory; each such
+    access must lie inside a lock region of the memory's mutex.  Functions are found by their field accesses, not by name"""
+    from .. import astdb
+    from ..astdb import walk, kids
+    htu = runtime.header('le')
+    found = []
+    for name, f in sorted(htu.functions.items()):
+        body = astdb.fn_body(f)
+        if body is None or not (astdb.file_of(f) or '').endswith('w2c2_base.h'):
+            continue
+        acc = [n for n in walk(body) if n.get('kind') == 'MemberExpr' and n.get('name') in PROTECTED and
+               'wasmMemory' in htu.desugar(astdb.qtype(kids(n)[0]))]
+        if not acc:
+            continue
+        calls = {astdb.callee_name(c) for c in walk(body) if c.get('kind') == 'CallExpr'}
+        params = astdb.fn_params(f)
+        takes_mem = [i for i, p_ in enumerate(params) if 'wasmMemory' in htu.desugar(astdb.qtype(p_))]
+        if not takes_mem:
+            continue            # creates the descriptor itself (allocator): not yet shared with any thread
+        pname = params[takes_mem[0]].get('name')
+        frees = [astdb.expr_text(astdb.strip(astdb.call_args(c)[0], casts=True)).replace(' ', '') for c in walk(body)
+                 if c.get('kind') == 'CallExpr' and astdb.callee_name(c) == 'free' and astdb.call_args(c)]
+        if any(t in (pname, pname + '->data') for t in frees) or calls & {'pthread_mutex_destroy', 'DeleteCriticalSection'}:
+            continue            # destroys the descriptor / its storage / its mutex: runs after the last user
+        found.append((name, f, params, takes_mem))
+    chk.require(len(found) >= 2, 'only %d runtime functions access memory->pages/size (expected grow and size at least)' % len(found))
+    for name, f, params, takes_mem in found:
+        chk.fn(name)
+
+        def mk(it, params=params, takes_mem=takes_mem):
+            args = []
+            for i, p_ in enumerate(params):
+                if i in takes_mem:
+                    args.append(Ptr({'v': runtime.memory_record(it, shared=True)}, 'v'))
+                else:
+                    args.append(unk(p_.get('name', 'p%d' % i), htu.desugar(astdb.qtype(p_))))
+            return args, {}
+        try:
+            paths = runtime.summarize(htu, name, mk)
+        except Exception as e:
+            from ..astdb import AnalysisBroken
+            raise AnalysisBroken('%s: %s' % (name, e))
+        bad = []
+        for p in paths:
+            held = 0
+            for ev, args, loc in p.events:
+                if ev == 'lock':
+                    held += 1
+                elif ev == 'unlock':
+                    held -= 1
+                elif ev in ('read', 'write') and args[1] in PROTECTED and held <= 0:
+                    bad.append((ev, args[1], loc))
+        chk.expect(not bad, 'R18.1', '%s:descriptor-access-locked' % name,
+                   '%s %ss memory->%s of a shared memory outside a lock region of its mutex (at %s): wasmMemoryGrow writes that field under the '
+                   'mutex, so this is a data race on the memory descriptor' % (name, bad[0][0] if bad else '', bad[0][1] if bad else '',
+                                                                            bad[0][2] if bad else ''),
+                   '%s:unlocked-%s' % (name, bad[0][1] if bad else 'field'), bad[0][2] if bad else None)
+
+
 def check_size_template(chk):
     tus = emit.translator_tus(('c.c', 'opcode.c', 'instruction.c'), chk=chk)
     it = emit.make_interp(tus)
@@ -137,6 +198,7 @@ def run(chk):
                        '(wasmMemoryAllocate runs before publication, wasmMemoryFree after the last user)']
     check_grow(chk)
     check_size_template(chk)
+    check_all_descriptor_readers(chk)
     # one descriptor per shared memory: thread instances alias the creator's descriptor (rule shared with C06 R06.4)
     from . import c06
     c06.check_shared_descriptor(chk, emit.translator_tus(('c.c', 'opcode.c', 'instruction.c'), chk=chk), 'R18.4')
